@@ -195,7 +195,7 @@ def replay_fresh_temperature(Temp=300.0):
     mass = const.mass[sp].unsqueeze(2)
     mi = torch.zeros_like(mass)
     mi[sp > 0] = 1 / mass[sp > 0]
-    mol = _t.SimpleNamespace(mass=mass, mass_inverse=mi, coordinates=torch.tensor(coords), velocities=None, num_atoms=(sp > 0).sum(1).double())
+    mol = _t.SimpleNamespace(mass=mass, mass_inverse=mi, coordinates=torch.tensor(coords), velocities=None, num_atoms=(sp > 0).sum(1).double(), molsize=sp.shape[1], nmol=sp.shape[0], species=sp)
     md.set_dof(mol, 0.0)
     torch.manual_seed(4)
     md.initialize_velocity(mol)
@@ -310,7 +310,7 @@ def replay_user_velocities():
     const = Constants()
     mass = const.mass[sp].unsqueeze(2)
     user = torch.tensor([[[0.01, 0.0, 0.0], [-0.005, 0.002, 0.0]]])
-    mol = _t.SimpleNamespace(mass=mass, mass_inverse=1 / mass, coordinates=torch.tensor([[[0.0, 0, 0], [0.74, 0, 0]]]), velocities=user.clone(), num_atoms=torch.tensor([2.0]), force=None, dm=None, cis_amplitudes=None, verbose=True, species=sp)
+    mol = _t.SimpleNamespace(mass=mass, mass_inverse=1 / mass, coordinates=torch.tensor([[[0.0, 0, 0], [0.74, 0, 0]]]), velocities=user.clone(), num_atoms=torch.tensor([2.0]), molsize=2, nmol=1, force=None, dm=None, cis_amplitudes=None, verbose=True, species=sp)
     md.initialize(mol)
     d = (mol.velocities - user).abs().max().item()
     print("replay user velocities: supplied %s, after initialize %s" % (user.tolist(), mol.velocities.tolist()))
